@@ -3564,3 +3564,28 @@ def r06_20(ctx):
         else:
             ctx.ok(('mld::buffer_len', show(a)[:40]), sample=dict(arm=show(a)[:70]))
     ctx.need(n >= 3, f"arms of mld::Repr::buffer_len (found {n})")
+
+
+@rule('R03.15', ['C03', 'C18', 'C10'], floor=1, clause='the DHCP client remembers a server address only if it is a unicast address: ServerInfo.address (the destination of the unicast renewal, which dispatch_ip asserts to be specified) is built from the IP source of the OFFER behind a unicast test of that source')
+def r03_15(ctx):
+    F = ctx.F
+    D = 'socket::dhcpv4::Socket'
+    SI = 'socket::dhcpv4::ServerInfo'
+    b = ctx.method(D, 'process')
+    sites = []
+    for bi, si, var in agg_sites(b, SI):
+        s = b.blocks[bi]['s'][si]
+        names = s[2][1].get('fnames') or []
+        if 'address' not in names:
+            continue
+        o = strip(simplify(F.origin.operand(b, s[2][2][names.index('address')], bi, si)))
+        if any(l.endswith('Repr.src_addr') for l in leafs(o)):
+            sites.append(bi)
+    ctx.need(sites, "ServerInfo built from the packet's source address in dhcpv4 process()")
+    uni = lambda f: f[0] == 'bool' and f[2] is True and (is_call(strip(f[1]), '::x_is_unicast') or is_call(strip(f[1]), '::is_unicast')) and any(l.endswith('Repr.src_addr') for l in leafs(f[1]))
+    bad = unguarded(F, b, sites, uni)
+    if bad:
+        ctx.bad("dhcpv4::process|server-address-unchecked", "dhcpv4 process() records the IP source of an OFFER as the server's address without testing that it is a unicast address: an OFFER/ACK pair "
+                "sent from 0.0.0.0 (which the ingress path lets through for DHCP) makes the renewal at T1 a unicast to 0.0.0.0, and Interface::poll panics on dispatch_ip's assertion", body=b, bb=bad[0][0], path=bad[0][1])
+    else:
+        ctx.ok(('dhcpv4::process', 'server address unicast'), sample=dict(field='ServerInfo.address', guard='src_ip.x_is_unicast()'))
